@@ -3,6 +3,7 @@ package main
 import (
 	"regexp/syntax"
 	"sort"
+	"unicode"
 )
 
 // Facts about the language of a lexer rule's regular expression, computed on
@@ -152,4 +153,87 @@ func uniqStrings(s []string) []string {
 		}
 	}
 	return out
+}
+
+// firstRunes: the set of runes a match of re can begin with (nullable parts are skipped over).
+func firstRunes(re *syntax.Regexp) (set runeSet, nullable bool) {
+	switch re.Op {
+	case syntax.OpEmptyMatch, syntax.OpBeginLine, syntax.OpEndLine, syntax.OpBeginText, syntax.OpEndText, syntax.OpWordBoundary, syntax.OpNoWordBoundary:
+		return nil, true
+	case syntax.OpLiteral:
+		if len(re.Rune) == 0 {
+			return nil, true
+		}
+		r := re.Rune[0]
+		s := rsRange(r, r)
+		if re.Flags&syntax.FoldCase != 0 {
+			for f := unicode.SimpleFold(r); f != r; f = unicode.SimpleFold(f) {
+				s = s.union(rsRange(f, f))
+			}
+		}
+		return s, false
+	case syntax.OpCharClass:
+		var s runeSet
+		for i := 0; i+1 < len(re.Rune); i += 2 {
+			s = s.union(rsRange(re.Rune[i], re.Rune[i+1]))
+		}
+		return s, false
+	case syntax.OpAnyChar, syntax.OpAnyCharNotNL:
+		return rsAll(), false
+	case syntax.OpCapture:
+		return firstRunes(re.Sub[0])
+	case syntax.OpStar, syntax.OpQuest:
+		s, _ := firstRunes(re.Sub[0])
+		return s, true
+	case syntax.OpPlus:
+		return firstRunes(re.Sub[0])
+	case syntax.OpRepeat:
+		s, n := firstRunes(re.Sub[0])
+		return s, n || re.Min == 0
+	case syntax.OpConcat:
+		var s runeSet
+		for _, sub := range re.Sub {
+			fs, n := firstRunes(sub)
+			s = s.union(fs)
+			if !n {
+				return s, false
+			}
+		}
+		return s, true
+	case syntax.OpAlternate:
+		var s runeSet
+		null := false
+		for _, sub := range re.Sub {
+			fs, n := firstRunes(sub)
+			s = s.union(fs)
+			null = null || n
+		}
+		return s, null
+	}
+	return nil, false
+}
+
+// optionalSuffixRunes: when the pattern ends in an optional / repeated class
+// (`=[c]*`, `\*[\+|\?cdn]*`), the runes of that class; nil otherwise.
+func optionalSuffixRunes(re *syntax.Regexp) runeSet {
+	for re.Op == syntax.OpCapture {
+		re = re.Sub[0]
+	}
+	last := re
+	if re.Op == syntax.OpConcat && len(re.Sub) > 0 {
+		last = re.Sub[len(re.Sub)-1]
+	} else if re.Op != syntax.OpStar && re.Op != syntax.OpQuest {
+		return nil
+	}
+	switch last.Op {
+	case syntax.OpStar, syntax.OpQuest:
+		s, _ := firstRunes(last.Sub[0])
+		return s
+	case syntax.OpRepeat:
+		if last.Min == 0 {
+			s, _ := firstRunes(last.Sub[0])
+			return s
+		}
+	}
+	return nil
 }
